@@ -3,9 +3,9 @@
  * plane code emitted.  Reads the shared op stream (the same file the Lean driver c02drv reads) on
  * stdin and prints one answer per line:
  *
- *   lpm <trieIdx> <slot> <nkeys> {<prefixlen>:<32 hex data>}*   lpm_array_map[slot] = new LPM trie  -> ok
+ *   lpm <slot> <nkeys> {<prefixlen>:<32 hex data>}*              lpm_array_map[slot] = new LPM trie  -> ok
  *   lpmdel <slot>                                                lpm_array_map delete               -> ok | err=<rc>
- *   rules <n> {<48 hex>}*n     routing_map[0..n) = struct match_set images (batch update)           -> ok
+ *   rset <n> {<idx>:<48 hex>}*n  routing_map[idx] = struct match_set image                          -> ok
  *   meta <len>                 routing_meta_map[0] = len                                            -> ok
  *   dom <32 hex addr> <256 hex bitmap>   domain_routing_map[addr] = struct domain_routing image      -> ok
  *   domdel <32 hex addr>       -> ok | err=<rc>
@@ -127,25 +127,25 @@ int main(void)
 			puts("-");
 			continue;
 		}
-		if (!strcmp(toks[0], "lpm") && n >= 4) {
-			uint32_t slot = (uint32_t)strtoul(toks[2], NULL, 10);
-			int nk = atoi(toks[3]), i, bad = 0;
+		if (!strcmp(toks[0], "lpm") && n >= 3) {
+			uint32_t slot = (uint32_t)strtoul(toks[1], NULL, 10);
+			int nk = atoi(toks[2]), i, bad = 0;
 			struct shim_map *inner = shim_map_create("lpm", BPF_MAP_TYPE_LPM_TRIE,
 								 sizeof(struct lpm_key), sizeof(__u32), MAX_LPM_SIZE);
 
-			if (n != 4 + nk)
+			if (n != 3 + nk)
 				bad = 1;
 			for (i = 0; !bad && i < nk; i++) {
 				struct lpm_key key;
 				__u32 one = 1;
-				char *colon = strchr(toks[4 + i], ':');
+				char *colon = strchr(toks[3 + i], ':');
 
 				if (!colon) {
 					bad = 1;
 					break;
 				}
 				*colon = 0;
-				key.prefixlen = (uint32_t)strtoul(toks[4 + i], NULL, 10);
+				key.prefixlen = (uint32_t)strtoul(toks[3 + i], NULL, 10);
 				if (unhex(colon + 1, (unsigned char *)key.data, 16))
 					bad = 1;
 				else if (shim_map_update(inner, &key, &one, BPF_ANY))
@@ -170,14 +170,21 @@ int main(void)
 				printf("err=%ld\n", rc);
 			else
 				puts("ok");
-		} else if (!strcmp(toks[0], "rules") && n >= 2) {
+		} else if (!strcmp(toks[0], "rset") && n >= 2) {
 			int nr = atoi(toks[1]), i, bad = (n != 2 + nr);
 
 			for (i = 0; !bad && i < nr; i++) {
 				struct match_set ms;
-				__u32 k = (__u32)i;
+				char *colon = strchr(toks[2 + i], ':');
+				__u32 k;
 
-				if (unhex(toks[2 + i], (unsigned char *)&ms, sizeof(ms)))
+				if (!colon) {
+					bad = 1;
+					break;
+				}
+				*colon = 0;
+				k = (__u32)strtoul(toks[2 + i], NULL, 10);
+				if (unhex(colon + 1, (unsigned char *)&ms, sizeof(ms)))
 					bad = 1;
 				else if (shim_map_update(m_routing, &k, &ms, BPF_ANY))
 					bad = 1;
@@ -215,7 +222,7 @@ int main(void)
 				else
 					puts("ok");
 			}
-		} else if (!strcmp(toks[0], "pkt") && n >= 7) {
+		} else if ((!strcmp(toks[0], "pkt") || !strcmp(toks[0], "kpkt")) && n >= 7) {
 			__u32 flag[8];
 			__be32 saddr[4], daddr[4], mac[4];
 			/* both header types start with source, dest (network order); use a buffer that
